@@ -115,6 +115,45 @@ Proof.
   - unfold quiescent. destruct (clean_flags c H) as (_ & _ & H3 & _). rewrite H3. reflexivity.
 Qed.
 
+(* ---------------------------------------------------------------- wall-clock independence
+   With no wall-clock site live, a run depends on the environment through the map iteration
+   orders only -- for ALL histories, custody map writes included. *)
+Lemma wall_free_flags c : wall_free c = true ->
+  poll_create_wall c = false /\ poll_vote_wall c = false /\ poll_end_wall c = false /\ custody_wall c = false.
+Proof. destruct c as [[] [] [] [] ?]; cbn; intro H; try discriminate H; repeat split. Qed.
+
+Section WallFree.
+Variables (c : cfg) (e1 e2 : env).
+Hypothesis Hc : wall_free c = true.
+Hypothesis Hmo : forall k l, map_order e1 k l = map_order e2 k l.
+
+Lemma deliver_wall_free k bt s t : deliver c e1 k bt s t = deliver c e2 k bt s t.
+Proof.
+  destruct (wall_free_flags c Hc) as (H1 & H2 & H3 & H4).
+  destruct t; unfold deliver, poll_end_of, vote_accepts, limit_new, wl_encode, now; rewrite ?H1, ?H2, ?H4, ?Hmo; reflexivity.
+Qed.
+
+Lemma deliver_all_wall_free bt ts : forall k s, deliver_all c e1 k bt s ts = deliver_all c e2 k bt s ts.
+Proof.
+  induction ts as [|t r IH]; intros k s; [reflexivity|].
+  cbn [deliver_all]. rewrite deliver_wall_free. destruct (deliver c e2 k bt s t) as [s1 x]. rewrite IH. reflexivity.
+Qed.
+
+Lemma end_block_wall_free k bt s : end_block c e1 k bt s = end_block c e2 k bt s.
+Proof. destruct (wall_free_flags c Hc) as (_ & _ & H3 & _). unfold end_block, poll_due, now. rewrite H3. reflexivity. Qed.
+
+Lemma run_from_wall_free bs : forall k s, run_from c e1 k s bs = run_from c e2 k s bs.
+Proof.
+  induction bs as [|b r IH]; intros k s; [reflexivity|].
+  cbn [run_from]. unfold run_block. rewrite deliver_all_wall_free.
+  destruct (deliver_all c e2 k (b_time b) s (b_txs b)) as [s1 rs]. rewrite end_block_wall_free. rewrite IH. reflexivity.
+Qed.
+End WallFree.
+
+Theorem run_wall_clock_independent : forall c, wall_free c = true ->
+  forall e1 e2 g bs, (forall k l, map_order e1 k l = map_order e2 k l) -> run c e1 g bs = run c e2 g bs.
+Proof. intros c Hc e1 e2 g bs Hmo. unfold run. apply run_from_wall_free; assumption. Qed.
+
 (* ================================================================ 2. the code as it is: refuted *)
 
 Definition g0 : st := mkSt [(1, 1000); (2, 1000)] [] 1 [] [] [] [(1, 5)].
@@ -148,6 +187,15 @@ Proof. exists env_a, env_b, g0, [mkBlock bt0 [TLimitedSend 1 10 1]]. vm_compute.
    the two environments agree on the clock *)
 Lemma custody_map_encoding_refuted :
   exists e1 e2 g bs, wall_clock e1 = wall_clock e2 /\ run wall_cfg e1 g bs <> run wall_cfg e2 g bs.
+Proof.
+  exists (mkEnv (fun _ => 0) (fun _ l => l)), (mkEnv (fun _ => 0) (fun _ l => rev l)), g0,
+    [mkBlock bt0 [TWhitelistAdd 1 [1%nat; 2%nat]]].
+  split; [reflexivity|]. vm_compute. discriminate.
+Qed.
+
+(* the same on the tree after c7688a1 (no wall-clock site left): the map encodings alone break it *)
+Lemma custody_map_encoding_after_fix_refuted :
+  exists e1 e2 g bs, wall_clock e1 = wall_clock e2 /\ run marshal_cfg e1 g bs <> run marshal_cfg e2 g bs.
 Proof.
   exists (mkEnv (fun _ => 0) (fun _ l => l)), (mkEnv (fun _ => 0) (fun _ l => rev l)), g0,
     [mkBlock bt0 [TWhitelistAdd 1 [1%nat; 2%nat]]].
